@@ -29,6 +29,8 @@ pub struct Script {
 pub const LIB_RES: &str = "package ns:lib;\n\ninterface o0 {\n    resource r;\n}\n\ninterface o1 {\n    use o0.{r};\n    f: func(x: borrow<r>);\n}\n";
 pub const LIB_VAL: &str = "package ns:lib;\n\ninterface i0 {\n    record a { x: u8 }\n    record t { y: a }\n}\n\ninterface i1 {\n    use i0.{t};\n    f: func() -> t;\n}\n";
 pub const LIB_ALIAS: &str = "package ns:lib;\n\ninterface i0 {\n    resource r;\n    type t = tuple<r>;\n}\n\ninterface i1 {\n    use i0.{t as u};\n    type v = u;\n}\n";
+pub const LIB_ALIAS2: &str = "package ns:lib;\n\ninterface i0 {\n    variant var4 { c1(bool), c2 }\n    record rec7 { f5: var4 }\n}\n\ninterface i1 {\n    use i0.{rec7};\n    variant var12 { c8, c9(rec7) }\n    type ali13 = var12;\n}\n";
+pub const LIB_ALIAS2_OTHER: &str = "package ns:other;\n\ninterface o0 {\n    use ns:lib/i1.{ali13 as ren19};\n}\n";
 pub const LIB_PLAIN: &str = "package ns:lib;\n\ninterface i1 {\n    f: func();\n}\n";
 
 pub fn scripts() -> Vec<Script> {
@@ -55,6 +57,12 @@ pub fn scripts() -> Vec<Script> {
             ops: vec![SOp::Inst(0)],
         },
         Script {
+            name: "use-of-alias-type",
+            libs: vec![LIB_ALIAS2, LIB_ALIAS2_OTHER],
+            comps: vec![("test:a", "package test:a;\nworld w { export ns:other/o0; export ns:lib/i1; export ns:lib/i0; }\n")],
+            ops: vec![SOp::Inst(0)],
+        },
+        Script {
             name: "explicit-import-merged",
             libs: vec![LIB_PLAIN],
             comps: vec![("test:a", "package test:a;\nworld w { import ns:lib/i1; }\n")],
@@ -70,7 +78,13 @@ fn model_of(lib_text: &str) -> Pkg {
     let mut cur: Option<witgen::Iface> = None;
     for line in lib_text.lines() {
         let l = line.trim();
-        if let Some(rest) = l.strip_prefix("interface ") {
+        if let Some(rest) = l.strip_prefix("package ") {
+            let id = rest.trim_end_matches(';');
+            if let Some((ns, name)) = id.split_once(':') {
+                pkg.ns = ns.to_string();
+                pkg.name = name.to_string();
+            }
+        } else if let Some(rest) = l.strip_prefix("interface ") {
             if let Some(i) = cur.take() {
                 pkg.ifaces.push(i);
             }
@@ -89,8 +103,9 @@ fn model_of(lib_text: &str) -> Pkg {
                 let is_resource = source
                     .map(|i| i.types.iter().any(|(n, d)| *n == name && matches!(d, witgen::TypeDef::Resource { .. })))
                     .unwrap_or(false);
+                let source_id = if path.contains(':') { path.to_string() } else { format!("{}:{}/{path}", pkg.ns, pkg.name) };
                 if let Some(c) = cur.as_mut() {
-                    c.uses.push(witgen::Use { path: path.to_string(), source_id: format!("ns:lib/{path}"), name, as_name, is_resource });
+                    c.uses.push(witgen::Use { path: path.to_string(), source_id, name, as_name, is_resource });
                 }
             }
         } else if let Some(rest) = l.strip_prefix("resource ") {
